@@ -202,6 +202,9 @@ func GenDef(r *rand.Rand, p *Profile) Cfg {
 				o.Env = T("VERIF_ENV_" + string(rune('A'+envN)))
 			}
 		}
+		if chance(r, p.Aliases/8) {
+			o.SetCalled = true
+		}
 		if chance(r, p.Valid) && (kind == "string" || kind == "sslice" || kind == "sopt") {
 			o.Valid = Ts("val", "foo", "a")
 		}
